@@ -222,6 +222,9 @@ def matMul {k : Nat} (A : Mat α m k) (B : Mat α k n) : Mat α m n :=
 def permuteRows (piv : Vector (Fin m) m) (A : Mat α m n) : Mat α m n :=
   Mat.ofFn fun i j => A.get (piv[i.val]'i.isLt) j
 
+/-- transpose -/
+def transpose (A : Mat α m n) : Mat α n m := Mat.ofFn fun i j => A.get j i
+
 /-- ones on the diagonal, zeros above it -/
 def UnitLower (L : Mat α m n) : Prop :=
   ∀ (i : Fin m) (j : Fin n), (i.val = j.val → L.get i j = Scalar.one) ∧ (i.val < j.val → L.get i j = Scalar.zero)
